@@ -36,6 +36,8 @@ type rcase struct {
 	views  []mzrun.EntryView
 	out    mzrun.Outcome
 	input  any
+	mz     string // tree leg: "" (not run) | "err" | "ok"
+	leaves int    // number of leaves found by walking the tree (mz == "ok")
 }
 
 type drv struct {
@@ -125,6 +127,7 @@ func keys(m map[int]bool) []int {
 
 func (d *drv) docCase(doc *docgen.Doc, hi int) {
 	h := d.hs[hi]
+	fixIntegralNativeDoubles(doc)
 	input := map[string]any{"doc": json.RawMessage(doc.Bytes), "hasher": hi, "expect": doc.Expect, "why": doc.Why, "facts": doc.Facts}
 	for f := range doc.Features {
 		d.rep.Count("feature:" + f)
@@ -151,6 +154,14 @@ func (d *drv) docCase(doc *docgen.Doc, hi int) {
 	if mo.Class == "panic" || mo.Class == "hang" {
 		d.rep.Fail("c01-"+mo.Class, "MerklizeJSONLD: "+mo.Msg, input)
 		return
+	}
+	// whatever the document: a merklizer that was returned accounts for every literal/IRI quad
+	// of the normalised dataset with exactly one leaf (nothing dropped, merged or overwritten)
+	c.mz = mo.Class
+	if mo.Class == "ok" {
+		if msg := d.leafAccounting(mt, mz, ds, c); msg != "" {
+			d.rep.Fail("c01-tree-leaves", msg, input)
+		}
 	}
 	switch doc.Expect {
 	case "error":
@@ -315,24 +326,30 @@ func (d *drv) rawDataset() (*ld.RDFDataset, string) {
 
 // rawCase: a hand-built dataset straight into EntriesFromRDFWithHasher. Besides the correspondence
 // with the model, oracles that need no model: indices, distinct keys, rejection of shared nodes.
-func (d *drv) rawCase(ds *ld.RDFDataset, kind string, hi int) {
+func (d *drv) rawCase(ds *ld.RDFDataset, kind string, hi int, mustReject bool) {
 	d.rep.Count("raw:" + kind)
-	input := map[string]any{"raw": rawOfDataset(ds), "kind": kind, "hasher": hi}
+	input := map[string]any{"raw": rawOfDataset(ds), "kind": kind, "hasher": hi, "must_reject": mustReject}
 	b, _ := json.Marshal(input)
 	d.rep.Distinct(string(b))
 	c := d.addDataset(ds, d.hs[hi], input)
 	if c.out.Class != "ok" {
 		return
 	}
+	d.rawTree(ds, c, input)
 	if msg := selfReference(ds); msg != "" {
 		d.rep.Fail("c01-accepted-self-reference", "dataset accepted although "+msg, input)
 		return
 	}
-	if msg := checkIndices(c.views); msg != "" {
-		d.rep.Fail("c01-indices", msg, input)
-	}
 	if msg := sharedInDataset(ds); msg != "" {
 		d.rep.Fail("c01-accepted-shared", "dataset accepted although "+msg, input)
+		return
+	}
+	if mustReject {
+		d.rep.Fail("c01-accepted-"+strings.SplitN(strings.TrimPrefix(kind, "named-"), "-", 2)[0], "dataset built to have no unique path ("+kind+") was accepted", input)
+		return
+	}
+	if msg := checkIndices(c.views); msg != "" {
+		d.rep.Fail("c01-indices", msg, input)
 	}
 	// one entry per literal/IRI quad
 	n := 0
@@ -378,8 +395,8 @@ func selfReference(ds *ld.RDFDataset) string {
 	return ""
 }
 
-// sharedInDataset reports a subject that is the object of two different quads of its own graph
-// (other than the quad asking), the situation the property says must be rejected.
+// sharedInDataset reports a subject that is the object of two different quads of its own graph,
+// the situation the property says must be rejected.
 func sharedInDataset(ds *ld.RDFDataset) string {
 	key := func(n ld.Node) string {
 		switch x := n.(type) {
@@ -391,14 +408,14 @@ func sharedInDataset(ds *ld.RDFDataset) string {
 		return ""
 	}
 	for g, qs := range ds.Graphs {
-		for i, q := range qs {
+		for _, q := range qs {
 			sk := key(q.Subject)
 			if sk == "" {
 				continue
 			}
 			refs := 0
-			for j, o := range qs {
-				if j != i && key(o.Object) == sk {
+			for _, o := range qs { // the asking quad counts too (fix b73a54e)
+				if key(o.Object) == sk {
 					refs++
 				}
 			}
@@ -419,17 +436,24 @@ func (d *drv) writeShards() error {
 		if hi > n {
 			hi = n
 		}
-		f := coqgen.NewFile("From GSP Require Import Value.Time Value.Model Value.Run RDF.Model RDF.Run.")
+		f := coqgen.NewFile("From GSP Require Import Value.Time Value.Model Value.Run RDF.Model RDF.Run RDF.RunMz.")
 		name := filepath.Join(d.cfg.OutDir, fmt.Sprintf("cases_C01_%03d.v", s))
 		var cs []string
 		for i := lo; i < hi; i++ {
 			c := d.cases[i]
-			cs = append(cs, fmt.Sprintf("mkr %d %s\n  %s\n  (%s)", i, coqgen.Limbs(c.prime), mzrun.DatasetCoq(f, c.ds, c.order), mzrun.EntriesObsCoq(f, c.views, c.out)))
+			mzo := "MZSkip"
+			switch c.mz {
+			case "err":
+				mzo = "MZErr"
+			case "ok":
+				mzo = fmt.Sprintf("(MZOk %d)", c.leaves)
+			}
+			cs = append(cs, fmt.Sprintf("mkrm %d %s\n  %s\n  (%s) %s", i, coqgen.Limbs(c.prime), mzrun.DatasetCoq(f, c.ds, c.order), mzrun.EntriesObsCoq(f, c.views, c.out), mzo))
 			d.rep.Case(name, i, c.input)
 		}
 		f.Add("Definition floats_ : raw_floats := " + d.fr.Coq(f) + ".")
-		f.Add("Definition cases_ : list rcase := " + coqgen.List(cs) + ".")
-		f.Add("Definition M := Eval vm_compute in rmismatches floats_ cases_.")
+		f.Add("Definition cases_ : list mcase := " + coqgen.List(cs) + ".")
+		f.Add("Definition M := Eval vm_compute in rmmismatches floats_ cases_.")
 		f.Add("Print M.")
 		if err := f.Write(name); err != nil {
 			return err
@@ -441,20 +465,21 @@ func (d *drv) writeShards() error {
 
 func Run(cfg *common.Config) (*common.Report, error) {
 	rep := common.NewReport("C01")
-	rep.Correspondence = "RDF.Run.rmismatches: entries_from_rdf (RDF/Model.v) vs merklize.EntriesFromRDFWithHasher on the dataset json-gold produced (and on hand-built datasets)"
+	rep.Correspondence = "RDF.RunMz.rmmismatches: entries_from_rdf (RDF/Model.v) vs merklize.EntriesFromRDFWithHasher on the dataset json-gold produced (and on hand-built datasets): error class or the full entry list; plus the tree leg: when MerklizeJSONLD / AddEntriesToMerkleTree succeeded, the number of leaves of the tree = number of model entries and the model's entry paths are pairwise distinct"
 	rep.Rule = "documents generated from random schema trees (depth<=3; type-/property-scoped contexts, prefixes, aliases, typed/untyped literals, arrays, IRI/blank objects, named graphs, repeated values, inline or remote contexts) x 3 hashers; shared-node, cycle(1..4), empty-string documents; odd shapes; hand-built datasets (cycles, shared nodes, blank leaves, duplicate quads, IRI graph names, missing default graph, bad predicates, literal subjects, cross-graph references); multi-graph documents (1..5 graphs under @graph-container properties) and multi-graph raw datasets (2..5 named graphs, labels whose byte-wise, numeric and insertion orders differ). distinct = distinct (document bytes, hasher) pairs; all are non-trivial (>= 1 quad)."
 	d := &drv{cfg: cfg, rep: rep, loader: ctxload.New(), fr: floats.New(), hs: hasherSet()}
 	g := docgen.New(cfg.Rng)
 	if cfg.Replay != "" {
 		var rf struct {
 			Input struct {
-				Doc    json.RawMessage `json:"doc"`
-				Hasher int             `json:"hasher"`
-				Expect string          `json:"expect"`
-				Why    string          `json:"why"`
-				Facts  []docgen.Fact   `json:"facts"`
-				Raw    []rawGraph      `json:"raw"`
-				Kind   string          `json:"kind"`
+				Doc        json.RawMessage `json:"doc"`
+				Hasher     int             `json:"hasher"`
+				Expect     string          `json:"expect"`
+				Why        string          `json:"why"`
+				Facts      []docgen.Fact   `json:"facts"`
+				Raw        []rawGraph      `json:"raw"`
+				Kind       string          `json:"kind"`
+				MustReject bool            `json:"must_reject"`
 			} `json:"input"`
 		}
 		if err := common.ReadJSON(cfg.Replay, &rf); err != nil {
@@ -464,7 +489,7 @@ func Run(cfg *common.Config) (*common.Report, error) {
 			rf.Input.Hasher = 0
 		}
 		if rf.Input.Raw != nil {
-			d.rawCase(datasetOfRaw(rf.Input.Raw), rf.Input.Kind, rf.Input.Hasher)
+			d.rawCase(datasetOfRaw(rf.Input.Raw), rf.Input.Kind, rf.Input.Hasher, rf.Input.MustReject)
 		} else {
 			expect := rf.Input.Expect
 			if expect == "" || (expect == "ok" && rf.Input.Facts == nil) {
@@ -510,12 +535,22 @@ func Run(cfg *common.Config) (*common.Report, error) {
 	for i := 0; i < cfg.Pick(30, 800); i++ {
 		d.docCase(d.multiGraphDoc(), cfg.Rng.Intn(len(d.hs)))
 	}
-	for i := 0; i < cfg.Pick(120, 3000); i++ {
-		ds, kind := d.rawDataset()
-		d.rawCase(ds, kind, cfg.Rng.Intn(len(d.hs)))
+	for i := 0; i < cfg.Pick(40, 1000); i++ {
+		d.docCase(d.namedGraphBadDoc(), cfg.Rng.Intn(len(d.hs)))
 	}
 	for i := 0; i < cfg.Pick(30, 800); i++ {
-		d.rawCase(d.multiGraphRaw(), "multi-graph", cfg.Rng.Intn(len(d.hs)))
+		d.docCase(d.dupPathDoc(), cfg.Rng.Intn(len(d.hs)))
+	}
+	for i := 0; i < cfg.Pick(120, 3000); i++ {
+		ds, kind := d.rawDataset()
+		d.rawCase(ds, kind, cfg.Rng.Intn(len(d.hs)), false)
+	}
+	for i := 0; i < cfg.Pick(30, 800); i++ {
+		d.rawCase(d.multiGraphRaw(), "multi-graph", cfg.Rng.Intn(len(d.hs)), false)
+	}
+	for i := 0; i < cfg.Pick(40, 1000); i++ {
+		ds, kind, reject := d.namedGraphBadRaw()
+		d.rawCase(ds, kind, cfg.Rng.Intn(len(d.hs)), reject)
 	}
 	return rep, d.writeShards()
 }
